@@ -31,6 +31,9 @@ def mutants(prog):
         ("dense regrid: no resampling", N, "DenseVectorFieldTransform.grid_", "flow = flow.sample(self.data_grid(grid))\n        flow = flow.axes(grid_axes)", "flow = flow.axes(grid_axes)", "T6x.regrid"),
         ("svf regrid keeps exp convention", N, "StationaryVelocityFieldTransform.grid_", "self.exp.align_corners = grid.align_corners()", "pass", "T6x."),
         ("ffd refine crop", S, "BSplineTransform.grid_", "new_params = new_params.narrow(dim, 1, new_shape[dim])", "new_params = new_params.narrow(dim, 0, new_shape[dim])", "T6x.regrid"),
+        ("composite update skips linear members", "deepali.spatial.composite", "CompositeTransform.update", "for transform in self.transforms():\n        transform.update()", "for transform in self.transforms():\n        if transform.nonrigid:\n            transform.update()", "T6x."),
+        ("generic inverse drops link", "deepali.spatial.generic", "GenericSpatialTransform.inverse", "inv = super().inverse(link=link, update_buffers=update_buffers)", "inv = super().inverse(update_buffers=update_buffers)", "T6x.linked-inverse"),
+        ("generic update does not push predicted parameters", "deepali.spatial.generic", "GenericSpatialTransform.update", "transform.data_(p)", "pass", "T6x."),
         ("update hook not registered", B, "SpatialTransform.register_update_hook", "self._update_hook_handle = self.register_forward_pre_hook(self._update_hook)", "self._update_hook_handle = None", "T6x."),
     ]
     for name, mod, fn, old, new, expect in specs:
